@@ -48,6 +48,22 @@ int main() {
     }
     delete seg->variable; delete seg;
   }
+  // overlapsWith: two connectors whose vertical segments overlap along y in (110,190) and whose shift ranges share a position
+  {
+    const double RANGES[4][4] = {{90, 90, 50, 90}, {90, 90, 90, 130}, {80, 100, 60, 95}, {90, 90, 90, 90}};   // {minA,maxA,minB,maxB}
+    for (int k = 0; k < 4; ++k) {
+      Router router(OrthogonalRouting);
+      ConnRef *ca = new ConnRef(&router, ConnEnd(Point(90, 110)), ConnEnd(Point(90, 190)));
+      ConnRef *cb = new ConnRef(&router, ConnEnd(Point(140, 40)), ConnEnd(Point(140, 260)));
+      Polygon ra(2); ra.ps[0] = Point(90, 110); ra.ps[1] = Point(90, 190); ca->setFixedRoute(ra);
+      Polygon rb(4); rb.ps[0] = Point(140, 40); rb.ps[1] = Point(90, 40); rb.ps[2] = Point(90, 260); rb.ps[3] = Point(140, 260); cb->setFixedRoute(rb);
+      NudgingShiftSegment sa(ca, 0, 1, false, false, 0, RANGES[k][0], RANGES[k][1]);
+      NudgingShiftSegment sb(cb, 1, 2, false, false, 0, RANGES[k][2], RANGES[k][3]);
+      if (!sa.overlapsWith(&sb, 0) || !sb.overlapsWith(&sa, 0)) {
+        printf("overlapsWith: spans overlap on (110,190), shift ranges [%g,%g] and [%g,%g] share a position, yet the segments are not reported as interacting\n",
+               RANGES[k][0], RANGES[k][1], RANGES[k][2], RANGES[k][3]); bad++; }
+    }
+  }
   if (bad) { printf("REPRODUCED: %d violation(s)\n", bad); return 1; }
   printf("not reproduced\n"); return 0;
 }
@@ -67,6 +83,9 @@ def jobs(tier):
     c01 = _c01()
     base = "#include <verif_base.h>\n#include <algorithm>\n"
     pt_pre, poly_pre, nd_pre = prelude("avoid_geomtypes.h"), prelude("avoid_polygon.h"), prelude("avoid_nudging.h")
+    enums = [slice_block("libavoid/router.h", r'^enum RoutingParameter\n\{', "enum RoutingParameter"),
+             slice_block("libavoid/router.h", r'^enum RoutingOption\n\{', "enum RoutingOption")]
+    nd_pre = nd_pre.replace("@ROUTER_ENUMS@", "\n".join(e.text for e in enums))
     layout.check_layout("avoid_nudging", pt_pre + poly_pre + nd_pre.replace("@NUDGE_UPDATE@", ""), ["libavoid/orthogonal.cpp"],
                         [("Avoid::NudgingShiftSegment", ["dimension", "minSpaceLimit", "maxSpaceLimit", "connRef", "variable", "indexes", "fixed",
                                                          "finalSegment", "endsInShape", "singleConnectedSegment", "checkpoints", "sBend", "zBend"]),
@@ -119,6 +138,22 @@ def jobs(tier):
                   slices=[upd, idx1], domain="every index pattern (duplicates allowed), fixed or not, non-empty channel interval",
                   expect=[r'h_whole\.assertion', r'unwind'], timeout=900,
                   note="displayRoute() is a body-less shim returning the harness route (plain harness, no dfcc)"))
+    # ---- overlapsWith: pairs that could coincide along a positive stretch must be reported as interacting
+    ow = slice_func(OC, r'^\s*bool overlapsWith\(const ShiftSegment \*rhsSuper, const size_t dim\) const', "NudgingShiftSegment::overlapsWith")
+    lowc = slice_func(OC, r'^\s*const Point& lowPoint\(void\) const', "NudgingShiftSegment::lowPoint const")
+    highc = slice_func(OC, r'^\s*const Point& highPoint\(void\) const', "NudgingShiftSegment::highPoint const")
+    shim2 = ('extern "C" { void *w_router(void *conn); double w_routingParameter(void *r, int p); bool w_routingOption(void *r, int o); }\n'
+             "namespace Avoid {\nRouter *ConnRef::router(void) const { return (Router *)w_router((void *)this); }\n"
+             "double Router::routingParameter(const RoutingParameter parameter) const { return w_routingParameter((void *)this, (int)parameter); }\n"
+             "bool Router::routingOption(const RoutingOption option) const { return w_routingOption((void *)this, (int)option); }\n}\n")
+    js.append(Job("overlapsWith", "U", spec, "h_overlaps", replay=replay_c10,
+                  cxx=tu(lowc.text + "\n" + highc.text + "\n" + ow.text + "\n",
+                         shim2 + 'extern "C" bool w_overlapsWith(void *a, void *b, size_t dim) { return ((const Avoid::NudgingShiftSegment *)a)->overlapsWith('
+                         '(const Avoid::ShiftSegment *)(const Avoid::NudgingShiftSegment *)b, dim); }\n'),
+                  defines=["JOB_overlaps"], slices=[ow, lowc, highc], unwind=4,
+                  domain="all doubles as coordinates and limits, every pair of segments of two different connectors (routes of 4 points, 1 to 3 indexes per segment: "
+                         "only the first and last index are read), both dimensions; plain harness, routing options/parameters arbitrary",
+                  expect=[r'h_overlaps\.assertion']))
     return js
 
 
